@@ -4,6 +4,7 @@ package simnet
 // synctest bubble (fake wall clock), collect the result.
 
 import (
+	"os"
 	"crypto/sha256"
 	"encoding/hex"
 	"fmt"
@@ -50,6 +51,13 @@ func Execute(t *testing.T, tr *Trace, gen *Gen, prop string, bubble bool) *RunRe
 		w = NewWorld(tr, MonitorsFor(prop))
 		w.Gen = gen
 		w.InBubble = bubble
+		w.StopOnViolation = true
+		w.KnownClasses = map[string]bool{}
+		for _, c := range strings.Split(os.Getenv("SIM_KNOWN"), ",") {
+			if c != "" {
+				w.KnownClasses[c] = true
+			}
+		}
 		w.Run()
 	}
 	leaked := false
